@@ -126,6 +126,8 @@ def make_model_class():
                         self.replace_values(**{name: series})
                     else:
                         raise ValueError(mode)
+            if d.get('v_touch_exog'):
+                d['_X'][t] = 1.0 + 0.5 * (iteration or 0)     # a scripted model may also move a variable it does not list as endogenous
             d.setdefault('v_passvals', []).append((t, iteration, {nm: float(d['_' + nm][t]) for nm in ('A', 'B', 'X')}))
 
     return ScriptedModel
